@@ -275,7 +275,10 @@ def _run_op(op, ctx):
                 # caches by redefining a same-named decorated class)
                 kids = list(th)
                 for c in kids:
-                    ctx['typehints'].append((c.hint, c))
+                    # (a child wrapper reports the *normalised* hint: None and NoneType are two spellings - two cache keys, two
+                    # wrappers, sequentially too - of one child, so that child is left out of the singleton comparison)
+                    if c.hint is not type(None):
+                        ctx['typehints'].append((c.hint, c))
                 out = ['ok', [len(th), [type(c).__name__ for c in kids]]]
             elif m == 'cmp':
                 other = door.TypeHint(H.build_hint(op['b']))
